@@ -23,7 +23,7 @@ pub struct TNode {
 	sources: Vec<Vec<TNode>>,
 }
 
-fn hs(s: &str) -> String {
+pub(crate) fn hs(s: &str) -> String {
 	hex(s.as_bytes())
 }
 
@@ -373,7 +373,7 @@ fn key(rng: &mut Rng) -> String {
 	}
 }
 
-fn is_bare(s: &str) -> bool {
+pub(crate) fn is_bare(s: &str) -> bool {
 	!s.is_empty() && s.chars().all(|c| c.is_ascii_alphanumeric() || c == '.' || c == '-' || c == '_')
 }
 
@@ -681,7 +681,7 @@ fn ref_tree(text: &str) -> Option<Vec<TNode>> {
 	}
 }
 
-fn ref_parse(text: &str) -> String {
+pub(crate) fn ref_parse(text: &str) -> String {
 	match ref_tree(text) {
 		Some(p) => format!("ok {}", dump_tpipe(&p)),
 		None => "err".into(),
@@ -720,7 +720,7 @@ fn emit_split(out: &mut Out, text: &str) {
 }
 
 /// markers (`layer_name` of the update stages) in the order the built operation prints them: outermost first
-fn debug_markers(dbg: &str) -> Vec<String> {
+pub(crate) fn debug_markers(dbg: &str) -> Vec<String> {
 	let pat = "layer_name: \"";
 	let mut v = vec![];
 	let mut rest = dbg;
@@ -742,7 +742,7 @@ fn real_chain(rt: &tokio::runtime::Runtime, dir: &Path, text: &str) -> String {
 }
 
 /// `C18 chain <hex>`: the operation chain that is actually constructed; `expected` = stages in text order
-fn emit_chain(out: &mut Out, rt: &tokio::runtime::Runtime, dir: &Path, text: &str, expected: Option<Vec<String>>) {
+pub(crate) fn emit_chain(out: &mut Out, rt: &tokio::runtime::Runtime, dir: &Path, text: &str, expected: Option<Vec<String>>) {
 	let real = real_chain(rt, dir, text);
 	let case = format!("C18 chain {}", hs(text));
 	out.case(&case, &real, true);
@@ -857,7 +857,7 @@ fn shrink_text(text: &str, bad: &dyn Fn(&str) -> bool) -> String {
 }
 
 /// a text with the answer the property demands (`expected`: `ok <dump>` or `err`)
-fn emit_parse(out: &mut Out, text: &str, expected: &str, kind: &str, nontrivial: bool) {
+pub(crate) fn emit_parse(out: &mut Out, text: &str, expected: &str, kind: &str, nontrivial: bool) {
 	let real = real_parse(text);
 	let case = format!("C18 parse {}", hs(text));
 	out.case(&case, &real, nontrivial);
@@ -996,19 +996,24 @@ fn mutate(rng: &mut Rng, text: &str) -> (String, &'static str) {
 // build cases (typed parameters, operation names)
 // ------------------------------------------------------------------------------------------------
 
-fn factory(dir: &Path) -> PipelineFactory {
+pub(crate) fn factory(dir: &Path) -> PipelineFactory {
 	use futures::future::BoxFuture;
 	use versatiles_container::{MockTilesReader, MockTilesReaderProfile};
 	use versatiles_core::types::TilesReaderTrait;
 	PipelineFactory::default(
 		dir,
-		Box::new(|_filename: String| -> BoxFuture<'static, anyhow::Result<Box<dyn TilesReaderTrait>>> {
-			Box::pin(async { Ok(Box::new(MockTilesReader::new_mock_profile(MockTilesReaderProfile::Pbf)?) as Box<dyn TilesReaderTrait>) })
+		Box::new(|filename: String| -> BoxFuture<'static, anyhow::Result<Box<dyn TilesReaderTrait>>> {
+			// fixture: files called `missing.versatiles` cannot be opened
+			let fail = filename.ends_with("missing.versatiles");
+			Box::pin(async move {
+				anyhow::ensure!(!fail, "no such file");
+				Ok(Box::new(MockTilesReader::new_mock_profile(MockTilesReaderProfile::Pbf)?) as Box<dyn TilesReaderTrait>)
+			})
 		}),
 	)
 }
 
-fn real_build(rt: &tokio::runtime::Runtime, dir: &Path, text: &str) -> String {
+pub(crate) fn real_build(rt: &tokio::runtime::Runtime, dir: &Path, text: &str) -> String {
 	match catch(|| rt.block_on(async { factory(dir).operation_from_vpl(text).await.map(|_| ()) })) {
 		Ok(Ok(())) => "ok".into(),
 		Ok(Err(_)) => "err".into(),
@@ -1246,7 +1251,7 @@ const BREAKS: &[&str] = &[
 	"duplicate-scalar", "unknown-key", "too-few-sources",
 ];
 
-fn emit_build(out: &mut Out, rt: &tokio::runtime::Runtime, dir: &Path, text: &str, expected: Option<&str>, kind: &str) {
+pub(crate) fn emit_build(out: &mut Out, rt: &tokio::runtime::Runtime, dir: &Path, text: &str, expected: Option<&str>, kind: &str) {
 	let real = real_build(rt, dir, text);
 	let case = format!("C18 build {}", hs(text));
 	out.case(&case, &real, true);
@@ -1304,6 +1309,12 @@ fn replay_line(out: &mut Out, rt: &tokio::runtime::Runtime, dir: &Path, line: &s
 	let t: Vec<&str> = line.split(' ').collect();
 	if t.len() == 4 && t[0] == "C18" && t[1] == "deep" {
 		deep_probe(out, dir, t[2].parse().unwrap(), t[3] == "open");
+		return;
+	}
+	if t.len() == 4 && t[0] == "C18" && t[1] == "path" {
+		if let (Ok(d), Ok(f)) = (String::from_utf8(unhex(t[2])), String::from_utf8(unhex(t[3]))) {
+			crate::c18x::emit_path(out, rt, &d, &f);
+		}
 		return;
 	}
 	if t.len() != 3 || t[0] != "C18" {
@@ -1533,6 +1544,12 @@ pub fn run(args: &Args) {
 		let depth = rng.range(1, 3) as usize;
 		let (text, exp) = chain_text(&mut rng, depth, &mut counter);
 		emit_chain(&mut out, &rt, &dir, &text, Some(exp));
+	}
+
+	// systematic coverage of the mutation classes (CHECKLIST.md)
+	{
+		let sample: Vec<String> = (0..args.n(60, 600)).map(|_| { let d = rng.range(1, 3) as usize; chain_text(&mut rng, d, &mut counter).0 }).collect();
+		crate::c18x::run_extra(&mut out, &rt, &dir, args, &sample);
 	}
 
 	// head/tail position and syntax errors through the factory
